@@ -61,7 +61,7 @@ type Exec struct {
 	G0                      int           // goroutines in the process when the case started
 	Idle                    time.Duration // idle timeout the server was configured with (0 = not modelled)
 	sentAt                  time.Time
-	optional map[int]bool // recipients that may or may not get the relays of the current event
+	optional                map[int]bool                  // recipients that may or may not get the relays of the current event
 	applied                 map[int]map[int32]int         // slot -> broadcast type -> count applied to its view
 	unsubAt                 map[*MSession]map[uint32]bool // types that lost a subscriber
 	actorBefore, actorAfter *MSession
